@@ -236,6 +236,21 @@ def r2(ctx):
     pc = ctx.func("whatshap.pedigree.mendelian_conflict")
     ok = util.params_of(pc.node) == ["genotypem", "genotypef", "genotypec"]
     ctx.ob(pc.qual, "mendelian_conflict-parameter-order", ok, pc.loc(), "mendelian_conflict(mother, father, child)" if ok else "mendelian_conflict parameters are %s" % util.params_of(pc.node))
+    # the predicate tests both ways of drawing one child allele from each parent, as mirror images
+    ifs = [n for n in walk_function(pc.node) if isinstance(n, ast.If)]
+    conj = []
+    n_ = ifs[0] if ifs else None
+    while isinstance(n_, ast.If):
+        rf = [b for b in n_.body if isinstance(b, ast.Return)]
+        if rf and isinstance(rf[0].value, ast.Constant) and rf[0].value.value is False and isinstance(n_.test, ast.BoolOp) and isinstance(n_.test.op, ast.And):
+            conj.append(sorted(u(v) for v in n_.test.values))
+        n_ = n_.orelse[0] if len(n_.orelse) == 1 and isinstance(n_.orelse[0], ast.If) else (None if not n_.orelse else n_.orelse[-1])
+    defs = {k: util.single_def(pc.node, k) for k in ("alleles_m", "alleles_f", "alleles_c")}
+    okd = all(v is not None for v in defs.values()) and u(defs["alleles_m"]) == "genotypem.as_vector()" and u(defs["alleles_f"]) == "genotypef.as_vector()" and u(defs["alleles_c"]) == "genotypec.as_vector()"
+    want = sorted([sorted(["alleles_c[0] in alleles_m", "alleles_c[1] in alleles_f"]), sorted(["alleles_c[1] in alleles_m", "alleles_c[0] in alleles_f"])])
+    ok = okd and sorted(conj) == want
+    tail = [n for n in walk_function(pc.node) if isinstance(n, ast.Return) and isinstance(n.value, ast.Constant) and n.value.value is True]
+    ctx.ob(pc.qual, "both-origin-assignments-tested", ok and len(tail) == 1, pc.loc(), "no conflict iff (c0 from mother and c1 from father) or (c1 from mother and c0 from father); otherwise conflict" if ok and len(tail) == 1 else "mendelian_conflict does not test the two mirror-image origin assignments: %s" % conj)
     fp = [c for c in ctx.prog.calls_in(fi.node) if u(c.func) == "find_mendelian_conflicts"]
     ok = len(fp) == 1 and [u(a) for a in fp[0].args] == ["trios", "variant_table"]
     ctx.ob(fi.qual, "conflicts-of-this-familys-trios", ok, fi.loc(), "conflicts are computed for this family's trios on the full table" if ok else "find_mendelian_conflicts arguments changed")
@@ -274,7 +289,8 @@ def r4(ctx):
     evs = [c for c in ctx.prog.calls_in(fr.node) if u(c.func) == "RecombinationEvent"]
     ctx.require(len(evs) == 1, "RecombinationEvent construction not found")
     exprs = [u(x) for x in evs[0].args[2:6]]
-    ok = len(exprs) == 4 and exprs[0].endswith("% 2") and exprs[1].endswith("% 2") and exprs[2].endswith("// 2") and exprs[3].endswith("// 2")
+    tvn = "block_transmission_vector"
+    ok = exprs == ["%s[i - 1] %% 2" % tvn, "%s[i] %% 2" % tvn, "%s[i - 1] // 2" % tvn, "%s[i] // 2" % tvn]
     cls = ctx.prog.cls("whatshap.pedigree.RecombinationEvent")
     fields = [n.target.id for n in cls.node.body if isinstance(n, ast.AnnAssign)]
     ok = ok and fields[2:6] == ["transmitted_hap_father1", "transmitted_hap_father2", "transmitted_hap_mother1", "transmitted_hap_mother2"]
@@ -307,4 +323,4 @@ RULES = [
     ("C05.R3", "genetic phasing of homozygous-parent variants on by default", r3),
     ("C05.R4", "transmission bit layout agrees between C++ and Python", r4),
 ]
-FLOORS = {"C05.R1": 14, "C05.R2": 13, "C05.R3": 4, "C05.R4": 7}
+FLOORS = {"C05.R1": 14, "C05.R2": 14, "C05.R3": 4, "C05.R4": 7}
